@@ -10,6 +10,14 @@ backend (sync and coroutine flavours), parking locks, parked writes, parked prod
        (the producer fills the queue and waits in `put` while transfers are pending) × fault plans: none / one failed transfer
        (N = 1: no worker survives; N ≥ 2: the survivors drain the queue) / backend outage from the k-th transfer on (every worker
        fails) — the abort protocol between the failing workers and a producer that is waiting on a full queue.
+  (iv) transfer latency in VIRTUAL time (harness/impl/c09_vtime.py): every wait with a finite time-out issued by replicat code
+       (Future.result / Queue.get,put / Event.wait / Lock.acquire / asyncio.wait_for, wait, timeout / futures.wait, as_completed)
+       gets a deadline on the controller's virtual clock; the scheduling action "tick" lets the clock jump to the next deadline while
+       the controller is holding a transfer (an arbitrarily slow backend, no real sleeping) and that wait expires.  Ticks are a
+       choice of every strategy (random / PCT / each single pre-emption); "latency" cases (more chunks than slots, so that loaders
+       queue for a slot) additionally run under the `slow` strategy: a transfer completes only when nothing else can move and
+       every overlapping finite wait has expired first.  The slot requests, grants, transfer ends, delays and expiries are the
+       events of the fifth system `Lat` (`latency_never_fails`, `latency_result_independent`).
 For every schedule the observed event trace is translated into the events of the four transition systems of
 `ReplicatModel/Sched.lean` and must be accepted by the compiled model (`sched.accepts`: slots, snapshot, locks, fin); the model's
 final state is compared with the implementation's (free slots, peak in-flight, processed chunks, uploaded?, finalisation counts,
@@ -30,6 +38,7 @@ from pathlib import Path
 from ..common import rng_for, digest
 from ..impl import runner as R
 from ..impl import sched_ctl as S
+from ..impl import c09_vtime as VT
 
 PARAMS = [(16, 16), (32, 32), (8, 32), (16, 64), (12, 12)]
 
@@ -58,6 +67,13 @@ def gen_case(r, small=None):
         cap = flood_capacity(n)
         t = cap + r.choice([1, 2, 3, 5]) if r.random() < 0.85 else max(2, cap - r.choice([1, 2, n + 3]))   # (some stay below the bound: control)
         return {'params': (sz, sz), 'files': {'f0': r.randbytes(sz * t)}, 'n': n, 'async': r.random() < 0.5, 'encrypted': False, 'shape': small}
+    if small == 'lat':         # more distinct chunks than slots: loader threads / worker tasks queue for a slot while transfers are held
+        n = r.choice([1, 1, 2, 2, 3])
+        k = n + r.choice([1, 2, 3]) + (n if r.random() < 0.3 else 0)
+        blocks = [r.randbytes(16) for _ in range(k)]
+        cut = r.randrange(1, k)
+        files = {'f0': b''.join(blocks[:cut]), 'd/f1': b''.join(blocks[cut:]) + (blocks[0] if r.random() < 0.4 else b'')}
+        return {'params': (16, 16), 'files': files, 'n': n, 'async': r.random() < 0.4, 'encrypted': False, 'shape': small}
     if small == 'stall1':      # one worker, few chunks: the loop thread is held between the two halves of the workers' exit test
         mn = mx = 16
         return {'params': (mn, mx), 'files': {'a': r.randbytes(32), 'b': r.randbytes(16 * r.choice([3, 4, 5]))}, 'n': 1, 'async': r.random() < 0.5, 'encrypted': False, 'shape': small}
@@ -413,6 +429,75 @@ def restore_requests(log, under_lock):
     return locks_req, fin_req, obs
 
 
+def latency_request(log, n):
+    """slot requests / grants / transfer ends, the delays of the virtual clock and the expiries of slot requests → events of `Lat`"""
+    void = set()
+    last = {}
+    for i, e in enumerate(log):
+        if e[0] == 'vt_expire':
+            last[e[1]] = i
+        elif e[0] == 'vt_expire_void' and e[1] in last:
+            void.add(last.pop(e[1]))
+    evs = []
+    jobs = slot_exp = other_exp = pending_exp = 0
+    finite_slot_waits = []
+    for i, e in enumerate(log):
+        k = e[0]
+        if k == 'slot_req':
+            evs.append(['request'])
+            jobs += 1
+        elif k == 'slot_acq':
+            evs.append(['grant'])
+        elif k == 'slot_rel':
+            evs.append(['finish'])
+        elif k == 'vt_wait' and str(e[4]).startswith('_acquire_slot'):
+            finite_slot_waits.append((e[2], e[3], e[4]))
+        elif k == 'vt_expire':
+            _, agent, prim, timeout, where, before, now, held, forced = e
+            if now > before:
+                evs.append(['delay', now - before])
+            if i in void:
+                continue
+            if str(where).startswith('_acquire_slot'):
+                pending_exp += 1
+            else:
+                other_exp += 1
+        elif k == 'slot_req_cancel' and pending_exp:
+            # the waiter whose time was up abandoned its request (a wait that is retried after the time-out keeps it)
+            pending_exp -= 1
+            evs.append(['expire'])
+            slot_exp += 1
+    return ({'op': 'sched.accepts', 'system': 'lat', 'n': n, 'jobs': jobs, 'events': evs},
+            {'slot_timeouts': slot_exp, 'other_timeouts': other_exp, 'jobs': jobs, 'finite_slot_waits': finite_slot_waits[:3]})
+
+
+def vt_summary(ctl):
+    vt = ctl.vt
+    return {'expired': [(prim, t, where, now, [list(map(str, h)) for h in held[:3]], forced) for (_, prim, t, where, now, held, forced) in vt.expired][:8],
+            'ticks': vt.ticks, 'forced': vt.forced, 'voided': vt.voided, 'windows': vt.windows, 'windows_any': vt.windows_any,
+            'seen': sorted((f'{prim}:{cls}', c) for (prim, cls), c in vt.seen.items())}
+
+
+def latency_verdicts(V, ctl, fail, op):
+    """a run in which finite waits expired under the virtual clock and whose outcome differs from the sequential run's: name the class
+    in the signature and say which wait expired while which transfer was held"""
+    live = [x for x in ctl.vt.expired]
+    if not live or fail is not None or not V:
+        return V
+    prim, t, where, now = live[0][1], live[0][2], live[0][3], live[0][4]
+    held = live[0][5]
+    note = (f'; VIRTUAL TIME: {len(live)} finite wait(s) issued by replicat code expired, the first: {prim}(timeout={t}) in {where} at t={now / 1000:g} s while the '
+            f'controller was holding {len(held)} transfer(s) {[tuple(map(str, h)) for h in held[:2]]} — a backend that needs more than {t} s for one '
+            f'transfer produces this outcome, a fast one (and the sequential run) does not')
+    out = []
+    for sig, what in V:
+        if ':spurious-exception:' in sig or sig.endswith(':hang') or sig.endswith(':result-differs'):
+            sig = sig.replace(f'{op}:', f'{op}:latency-dependent:', 1)
+            what += note
+        out.append((sig, what))
+    return out
+
+
 # ------------------------------------------------------------------------------------------------ one schedule
 def make_strategy(spec, r):
     kind = spec[0]
@@ -424,6 +509,8 @@ def make_strategy(spec, r):
         return S.PCT(r, depth=spec[1], est_steps=spec[2])
     if kind == 'ahead':
         return S.ProducerAhead(r, bias=spec[1] if len(spec) > 1 else 1.0)
+    if kind == 'slow':
+        return VT.SlowTransfers(r, max_ticks=spec[1] if len(spec) > 1 else 4)
     if kind == 'listed':
         return S.Listed({int(k): v for k, v in spec[1].items()}, mode=spec[2])
     raise ValueError(kind)
@@ -509,19 +596,23 @@ def run_snapshot_schedule(prep, spec, r, flags, fail=None, quick=True, hold_empt
     preq = snapshot_request(ctl.log, prep.total, n, upto_hang=bool(res['hang']))
     impl_up = any(k.startswith('snapshots/') for k in be.objects)
     out['model'].append((preq, {'uploaded': impl_up, 'ok': res['outcome'] == 'ok', 'total': prep.total, 'hang': bool(res['hang']), 'failed': fail is not None and bool(ctl.faults_injected)}, 'snapshot'))
+    lreq, lobs = latency_request(ctl.log, n)
+    out['model'].append((lreq, dict(lobs, clean=fail is None and res['outcome'] == 'ok' and not res['hang'] and bool(res.get('quiescent')), hang=bool(res['hang'])), 'lat'))
+    out['violations'] = V = latency_verdicts(V, ctl, fail, 'snapshot')
     out['summary'] = {'op': 'snapshot', 'n': n, 'async': case['async'], 'chunks': prep.total, 'distinct': prep.distinct_chunks, 'pre': pre, 'strategy': spec[0],
                       'steps': ctl.step, 'multi': ctl.multi_choice_steps, 'calls': ncalls, 'max_inflight': ctl.max_inflight, 'fail': fault_name,
                       'fault_plan': fail if isinstance(fail, dict) else None, 'faults': len(ctl.fault_log), 'failed_workers': failed_workers,
                       'queue_cap': ctl.queue_cap, 'full_waits': ctl.put_full_waits,
                       'full_at_fault': sum(1 for f in ctl.fault_log if f['queue_cap'] and f['queue_len'] >= f['queue_cap']),
                       'producer_waiting_at_fault': sum(1 for f in ctl.fault_log if f['producer'] == 'waiting-full'),
-                      'order': [e[2] for e in ctl.log if e[0] == 'q_get'][:24], 'completion': [str(e[3]) + e[2][0] for e in ctl.log if e[0] == 'call_end'][:40]}
+                      'order': [e[2] for e in ctl.log if e[0] == 'q_get'][:24], 'completion': [str(e[3]) + e[2][0] for e in ctl.log if e[0] == 'call_end'][:40],
+                      'vt': vt_summary(ctl)}
     out['nontrivial'] = ctl.multi_choice_steps >= 2 and (ncalls >= 3 or ctl.put_full_waits > 0)
     del repo
     return out
 
 
-def run_restore_schedule(prep, spec, r, flags, sc, tag, fail=None, quick=True, preexisting=None):
+def run_restore_schedule(prep, spec, r, flags, sc, tag, fail=None, quick=True, preexisting=None, control=None):
     case = prep.case
     n = case['n']
     be = prep.backend(dict(prep.ref_backend_objects))
@@ -529,6 +620,8 @@ def run_restore_schedule(prep, spec, r, flags, sc, tag, fail=None, quick=True, p
     if preexisting:
         R.write_tree(tgt, preexisting)
     repo = R.unlock(be, key=prep.key, concurrent=n)
+    if control == 'retried-slot-wait':
+        VT.retried_slot_wait(repo)
     strat = make_strategy(spec, r)
     ctl = S.Controller(strat, n, names=prep.names, hang_after=3.0 if quick else 6.0, fail_at=fail)
     ctl.loc_of_digest = repo._chunk_digest_to_location
@@ -600,11 +693,18 @@ def run_restore_schedule(prep, spec, r, flags, sc, tag, fail=None, quick=True, p
                                            keyerror=res['outcome'] == 'error' and isinstance(res.get('error'), KeyError)), 'fin'))
     else:
         out['fin_unavailable'] = True
+    lreq, lobs = latency_request(ctl.log, n)
+    out['model'].append((lreq, dict(lobs, clean=clean and bool(res.get('quiescent')), hang=bool(res['hang'])), 'lat'))
+    out['violations'] = V = latency_verdicts(V, ctl, fail, 'restore')
     out['summary'] = {'op': 'restore', 'n': n, 'async': case['async'], 'chunks': prep.total, 'distinct': prep.distinct_chunks, 'files': len(paths), 'strategy': spec[0],
                       'steps': ctl.step, 'multi': ctl.multi_choice_steps, 'loaders': obs['n_loaders'], 'writers': obs['n_writers'], 'loader_paths': obs['loader_paths'][:12],
                       'fail': None if fail is None else (fail['kind'] if isinstance(fail, dict) else fail[0]), 'faults': len(ctl.fault_log),
                       'dev': spec[1] if spec[0] == 'listed' else None,
-                      'lock_order': [str(e[3][1:3]) + e[2] for e in ctl.log if e[0] == 'lock_acq'][:40]}
+                      'lock_order': [str(e[3][1:3]) + e[2] for e in ctl.log if e[0] == 'lock_acq'][:40], 'vt': vt_summary(ctl), 'control': control}
+    if control:
+        # the control runs harness code in place of one method: whatever goes wrong is the harness's problem, not replicat's
+        out['control_failures'] = [f'{sig}: {what[:300]}' for sig, what in V]
+        out['violations'] = V = []
     out['nontrivial'] = ctl.multi_choice_steps >= 4 and obs['n_loaders'] >= 2
     del repo
     return out
@@ -689,6 +789,19 @@ def do_item(arg):
                 for p_i, (st, fplan) in enumerate(plans[:item.get('runs', 9)]):
                     spec = {'ahead': ('ahead', 1.0), 'ahead9': ('ahead', 0.9), 'pct': ('pct', 3, 20 + 12 * prep.total)}[st]
                     results.append(run_snapshot_schedule(prep, spec, rng_for(seed, 'C09-fl', item['id'], p_i), flags, fail=fplan, quick=quick))
+                    if time.time() - t_start > item.get('time_box', 60):
+                        break
+            elif kind == 'latency':
+                # a slow backend in virtual time: `slow` (every overlapping finite wait expires before a transfer completes; 1 or
+                # up to 4 expiries), then random with ticks as one choice among the held transfers
+                for s_i, spec in enumerate(item.get('strategies', [['slow', 4], ['slow', 1], ['random']])):
+                    spec = tuple(spec)
+                    if s_i != 1:
+                        results.append(run_snapshot_schedule(prep, spec, rng_for(seed, 'C09-ls', item['id'], s_i), flags, quick=quick))
+                    results.append(run_restore_schedule(prep, spec, rng_for(seed, 'C09-lr', item['id'], s_i), flags, sc, 'l%d' % s_i, quick=quick))
+                    if s_i == 0 and item.get('control'):
+                        results.append(run_restore_schedule(prep, spec, rng_for(seed, 'C09-lc', item['id'], s_i), flags, sc, 'c%d' % s_i, quick=quick,
+                                                            control='retried-slot-wait'))
                     if time.time() - t_start > item.get('time_box', 60):
                         break
             elif kind == 'random':
@@ -786,6 +899,9 @@ def plan(seed, tier):
         items.append({'id': f'flood{rep}', 'kind': 'flood', 'case': f'fl{rep}', 'small': 'flood', 'time_box': 45 if quick else 90})
     for n in ((1, 2, 3) if quick else (1, 2, 3, 5)):
         items.append({'id': f'cli{n}', 'kind': 'cli-failure', 'case': f'cli{n}', 'n': n, 'chunks': 12 if n < 5 else 24, 'pseed': seed})
+    # (iv) transfer latency in virtual time: loaders / workers queue for a slot while the held transfers are arbitrarily slow
+    for rep in range(6 if quick else 60):
+        items.append({'id': f'lat{rep}', 'kind': 'latency', 'case': f'lat{rep}', 'small': 'lat', 'time_box': 30 if quick else 90, 'control': rep % 3 == 0})
     # (ii) random / PCT on generated cases
     nrand = 64 if quick else 700
     for k in range(nrand):
@@ -804,6 +920,17 @@ def compare(kind, req, impl, m, flags):
         if predicted != (impl['blocked'] > 0):
             return [f'life: model (joins={m.get("joins")}) predicts blocked loaders = {predicted}, implementation left {impl["blocked"]} blocked']
         return []
+    if kind == 'lat' and not impl.get('hang'):
+        bad = []
+        # (a finite slot wait that is retried keeps its request: no `expire` event; one that gives up needs `Lat.tmo = some T` to be accepted)
+        if not m.get('ok'):
+            ev = req['events'][m['index']] if m.get('index', 0) < len(req['events']) else None
+            return bad + [f'lat: observed trace rejected by the model (request bound {m.get("timeoutMs")} ms) at event #{m.get("index")} {ev}: {m.get("why")}']
+        if m['timedOut'] != impl['slot_timeouts']:
+            bad.append(f'slot requests that gave up: model {m["timedOut"]} implementation {impl["slot_timeouts"]}')
+        if impl['clean'] and not (m['quiet'] and m['done'] == impl['jobs'] and m['free'] == req['n']):
+            bad.append(f'after a successful run the model is not at rest: quiet={m["quiet"]} done={m["done"]}/{impl["jobs"]} free={m["free"]}/{req["n"]}')
+        return bad
     if impl.get('hang'):
         # a hung run is reported by the oracle; its trace is a prefix torn down by the controller.  For the snapshot pipeline the
         # prefix up to the hang must be a legal schedule that ends in a state the model calls stuck (the model explains the hang)
@@ -875,13 +1002,15 @@ def run(out, drv, info):
                 'sync/coroutine backend × plain/encrypted × pre-existing chunks (none/some/all) × pre-existing target files × optional injected transfer failure; '
                 'schedule = all completion orders (small snapshot cases), every single pre-emption (thorough: pairs) at lock/write/call boundaries (2–3 loaders sharing files), '
                 'PCT(d=2,3) and uniform random elsewhere; flood cases (> 11·N chunks, N ∈ {1,2,3}) under producer-ahead schedules (the producer waits on the full queue) × '
-                'fault plans none / listed transfers fail / outage from the k-th transfer on. non-trivial = the controller had ≥ 2 (snapshot) / ≥ 4 (restore, ≥ 2 loaders) decision points with more than one enabled agent; '
+                'fault plans none / listed transfers fail / outage from the k-th transfer on; latency cases (distinct chunks > N: requests queue for a slot) under '
+                'the slow-transfer strategy in virtual time (finite waits of replicat code expire while a transfer is held), ticks are a choice of every other strategy too. non-trivial = the controller had ≥ 2 (snapshot) / ≥ 4 (restore, ≥ 2 loaders) decision points with more than one enabled agent; '
                 'distinct = hash of (case summary, realised order of queue gets / completions / lock acquisitions)')
     out.assumptions = ['pre-emption only at the instrumented points (backend transfers, Lock acquire / after release, _write_file_part, producer put); CPython byte-code level '
                        'interleavings, the GIL and event-loop internals are not explored (claim is PARTIAL)',
                        'liveness = no deadlock + bounded number of progress steps in the model; the harness reports a hang after a time-out',
                        'asyncio / ThreadPoolExecutor / queue.Queue / threading.Lock behave as documented',
-                       'sequential reference = the same operation with concurrency 1 and calls completing in issue order']
+                       'sequential reference = the same operation with concurrency 1 and calls completing in issue order',
+                       'virtual time: threads run in zero time, only transfers take time; finite waits of at most %g s run in real time; at most %d expiries per run' % (VT.REAL_MAX, VT.MAX_TICKS)]
     if drv is None:
         flags = {'slotBase': 2, 'finaliseDecidedUnderLock': True}
     else:
@@ -956,6 +1085,28 @@ def run(out, drv, info):
         else:
             out.count('pre-existing-chunks:' + str(s.get('pre')))
         out.count('decision-points-with-choice', s.get('multi', 0))
+        vt = s.get('vt')
+        if s.get('control'):
+            out.count('control:' + s['control'])
+            out.count('control:' + s['control'] + ':expiries-played', vt['ticks'] if vt else 0)
+            if not (vt and vt['ticks']):
+                out.count('control:' + s['control'] + ':no-expiry-played')
+            for cf in res.get('control_failures') or []:
+                out.disagreement('virtual-time control (harness code with a retried finite slot wait in place of _acquire_slot_threadsafe): ' + cf,
+                                 {'kind': 'schedule', 'seed': out.seed, 'tier': out.tier, 'item': res['item'], 'run': res['run'], 'system': 'control', 'summary': s})
+        if vt:
+            # the class "outcome depends on the latency of a transfer": states in which a finite wait could expire, waits seen, expiries played
+            out.count('latency-windows(only held transfers are enabled)', vt['windows_any'])
+            out.count('latency-windows-with-a-queued-slot-request', vt['windows'])
+            if vt['windows']:
+                out.count('schedules-with-slot-request-queued-behind-a-held-transfer')
+            for name, c in vt['seen']:
+                out.count('wait-issued-by-replicat:' + name, c)
+            if vt['ticks']:
+                out.count('schedules-with-virtual-time-expiry')
+                out.count('virtual-time-expiries', vt['ticks'])
+            if vt['forced']:
+                out.count('virtual-time-expiries:nothing-else-enabled', vt['forced'])
         if res.get('fin_unavailable'):
             out.count('fin-trace-unavailable')
         if res.get('exhausted'):
